@@ -19,16 +19,20 @@ def rule_fold(ctx: Ctx):
     TEXT, STEPS = fn.args.args[0].arg, fn.args.args[1].arg
     loops = [s for s in fn.body if isinstance(s, ast.For)]
     ok = len(loops) == 1 and norm(loops[0].iter) == STEPS and isinstance(loops[0].target, ast.Name)
+    POS = None
+    if not ok and len(loops) == 1 and norm(loops[0].iter) == f"enumerate({STEPS})" and isinstance(loops[0].target, ast.Tuple) and len(loops[0].target.elts) == 2 \
+            and all(isinstance(e_, ast.Name) for e_ in loops[0].target.elts):
+        ok, POS = True, loops[0].target.elts[0].id  # `for position, step in enumerate(steps)`: the same steps in the same order
     ctx.ob("R-C20-1", f"{q}/single-loop-over-steps", ok, "one loop over the steps parameter, in order", node=loops[0] if loops else fn, mod=m)
     if not ok:
         return
     loop = loops[0]
-    STEP = loop.target.id
+    STEP = loop.target.id if POS is None else loop.target.elts[1].id
     # loop-carried state: only the text
     assigned = set()
     for s in loop.body:
         assigned |= assigned_names(s)
-    outside = assigned_names(fn) - assigned - {STEP}
+    outside = assigned_names(fn) - assigned - {STEP, POS}
     extra_state = []
     for n in walk_local(loop):
         if isinstance(n, ast.Call) and isinstance(n.func, ast.Attribute) and isinstance(n.func.value, ast.Name):
@@ -68,6 +72,11 @@ def rule_fold(ctx: Ctx):
         if isinstance(e, ast.Subscript) and norm(e.slice) == STEP and isinstance(e.value, ast.Name):
             table = e.value.id
             return "lookup"
+        if isinstance(e, ast.Call) and isinstance(e.func, ast.Attribute) and e.func.attr == "get" and isinstance(e.func.value, ast.Name) and [norm(a) for a in e.args] == [STEP]:
+            table = e.func.value.id
+            return "lookup"
+        if isinstance(e, ast.IfExp) and isinstance(e.orelse, ast.Constant) and e.orelse.value is None:
+            return source_of(e.body, src)
         if norm(e) == STEP:
             return "callable"
         if isinstance(e, ast.Name) and e.id in src:
@@ -112,7 +121,10 @@ def rule_fold(ctx: Ctx):
         conds = [(norm(ev[1]), ev[2]) for ev in p.events if ev[0] == "cond"]
         exc = p.exit_node.exc
         name = dotted(exc.func) if isinstance(exc, ast.Call) else dotted(exc) if exc is not None else None
-        okr = name == "ValueError" and (f"{STEP} in {table}", False) in conds and (f"callable({STEP})", False) in conds
+        # "not a key of the table": the membership test failed, or the `.get()` result held in a local is None
+        no_key = (f"{STEP} in {table}", False) in conds or any(c_.endswith(" is None") and o_ and isinstance(ev_[1], ast.Compare) and isinstance(ev_[1].left, ast.Name)
+                                                                 for ev_ in p.events if ev_[0] == "cond" for c_, o_ in [(norm(ev_[1]), ev_[2])])
+        okr = name == "ValueError" and no_key and (f"callable({STEP})", False) in conds
         why = f"raises {name} under {conds}"
     ctx.ob("R-C20-2", f"{q}/unknown-step-raises-ValueError", okr,
            f"a step that is neither a key of the lookup table nor callable raises ValueError before anything is applied ({why})", node=loop, mod=m)
